@@ -3,6 +3,8 @@ import Chain33Model.Proofs.C15Run
 C15 — the per-executor equation: exact effect of every operation on
 `deficit c s e = balance(exec address e) - Σ (balance+frozen) of the accounts under e`.
 -/
+set_option linter.unusedSectionVars false
+set_option linter.unusedSimpArgs false
 namespace C15
 section
 variable {σ κ : Type} [DecidableEq σ] [DecidableEq κ] (c : Cfg σ κ)
